@@ -23,7 +23,7 @@ META = {
         "thorough": {"A": "buffers 1..16 bytes, every (p, n)", "B": "buffers of 6 and 8 bytes, p and n symbolic"},
     },
     "stubs": ["int.from_bytes / int.to_bytes: positional big-endian value (modelled exactly)", "bytes slicing: list slicing of symbolic bytes"],
-    "outside_claim": ["buffers longer than the bound", "reads with p+n beyond the buffer (C14)", "negative n (C14)"],
+    "outside_claim": ["buffers longer than the bound (in particular widths above 14 284 bits, where CPython refuses to render the integer as decimal text: a debug f-string on the value would raise there - not modelled, z3's own Python API hits the same limit)", "reads with p+n beyond the buffer (C14)", "negative n (C14)"],
     "assumptions": ["CPython int/bytes semantics as modelled by the BV proxies (cross-validated per path against the unpatched library)"],
 }
 
